@@ -16,6 +16,7 @@ def run(ctx):
     solveprog.r_solve_program(ctx, {"track", "drain", "duals"})   # nothing left over from an earlier solve is tracked or sent; what is sent is what was just regenerated
     n = state.r_accum(ctx)
     state.r_postsolve(ctx)
+    pepsolve.r_registry(ctx)     # registries and their counters are edited by constructors and the reset only: a solve that takes a leaf out renumbers what earlier solves assigned
     pepsolve.r_order(ctx)        # the multipliers of every successful solve are captured, whatever the mode: none survives from an earlier solve
     state.r_memo(ctx)
     state.r_memo_new(ctx)
